@@ -537,6 +537,18 @@ def timer_summaries(ctx, rule="R06.2"):
                 fail="the control injected at grace expiry is no longer Stop / ContinueTryGracefulRestart with the original flag")
 
 
+def past_tests(f):
+    """calls that test `the armed timer has expired` on an Option<Timer>: map_or(false, Timer::is_past) or is_some_and(Timer::is_past)"""
+    return [(bi, t) for bi, t in f.calls() if t.callee.is_("core::option::Option::map_or", "core::option::Option::is_some_and") and
+            any((a.const_fn() is not None and a.const_fn().is_("Timer::is_past")) for a in t.args)]
+
+
+def past_default_false(t):
+    if t.callee.is_("core::option::Option::is_some_and"):
+        return True
+    return [a.const_bool() for a in t.args if a.is_const() and a.const_fn() is None] == [False]
+
+
 def recv_gating(ctx, B, rule="R06.3"):
     f = B.recv
     cfg = CFG(f)
@@ -599,16 +611,14 @@ def recv_gating(ctx, B, rule="R06.3"):
             if len(maps) == 1:
                 b2, t2 = maps[0]
                 takes = [x for x in origin_calls(f, t2.args[0]) if x[0].callee.is_("core::option::Option::take")]
-                past = [(b3, t3) for b3, t3 in f.calls() if t3.callee.is_("core::option::Option::map_or") and
-                        any((a.const_fn() is not None and a.const_fn().is_("Timer::is_past")) for a in t3.args)]
+                past = past_tests(f)
                 if takes and len(past) == 1:
                     sw2 = f.blocks[past[0][1].target].term
                     if sw2.kind == "switch":
                         false_t = [tt for v, tt in sw2.cases if v == 0]
                         ok = bool(false_t) and not cfg.reaches(false_t[0], b2) and cfg.dominates(past[0][0], b2)
-                        # an unarmed timer (None) must count as "not expired": the map_or default is `false`
-                        dflt = [a.const_bool() for a in past[0][1].args if a.is_const() and a.const_fn() is None]
-                        ok = ok and dflt == [False]
+                        # an unarmed timer (None) must count as "not expired": map_or's default is `false` (is_some_and has it built in)
+                        ok = ok and past_default_false(past[0][1])
             ctx.require(ok, rule, "expiry-fastpath", "an already expired timer is taken (cleared) and turned into the forced control only when is_past() holds",
                         f.loc(f.line), fail="the forced control can be produced before the grace period has elapsed, or without clearing the timer")
 
@@ -1069,8 +1079,7 @@ def recv_order(ctx, B, rule="R10.1"):
                 if any(a.kind in ("upvar", "arg") and a.proj and a.proj[-1][2] == name for a in origins(f, t.args[0])):
                     out.append((bi, t))
         return out
-    past = [(bi, t) for bi, t in f.calls() if t.callee.is_("core::option::Option::map_or") and
-            any((a.const_fn() is not None and a.const_fn().is_("Timer::is_past")) for a in t.args)]
+    past = past_tests(f)
     ut, ht = reads("try_recv", "urgent"), reads("try_recv", "high")
     ctx.require(len(past) == 1 and len(ut) == 1 and len(ht) == 1, rule, "prelude-present",
                 "recv first checks the expired timer, then urgent.try_recv, then high.try_recv", f.loc(f.line),
